@@ -6054,3 +6054,266 @@ func ruleCacheLocSticky(w *World, r *Report) {
 		r.exempt("CACHE-LOC-STICKY", "field="+cachedLoc+".Location", "", "nothing stores into CachedLocation.Location: shape not recognised, not decided")
 	}
 }
+
+// COPY-DEEP (C04): the per-action copy of the event reaches below arrays.
+func ruleCopyDeep(w *World, r *Report) {
+	r.Rule("COPY-DEEP", "core.Copy, with which every concurrently executed action (and every code condition) is given an event of its own, descends into every container kind a decoded JSON value is made of: its type switch has a case for map[string]interface{} and one for []interface{}.  A copy that stops at arrays shares everything below the first array between the actions, the caller's event and the event in the returned work tree: one action's write to event.items[0] is seen by the others", 1)
+	fn := w.Func("core", "Copy")
+	key := "fn=" + fname(fn)
+	have := assertedTypes(fn, func(v ssa.Value) bool { return v == ssa.Value(fn.Params[0]) })
+	var missing []string
+	for _, t := range []string{"map[string]interface{}", "[]interface{}"} {
+		if !have[t] && !have[strings.ReplaceAll(t, "interface{}", "any")] {
+			missing = append(missing, t)
+		}
+	}
+	if len(missing) > 0 {
+		r.violation("COPY-DEEP", key, w.Pos(fn.Pos()), "Copy has no case for "+strings.Join(missing, ", ")+": what lies below such a value is shared between the copy and the original")
+		return
+	}
+	r.ok("COPY-DEEP", key, w.Pos(fn.Pos()), "maps and arrays are both copied recursively")
+}
+
+// SHARED-TO-JS (C11): what all locations share is not handed to a script by reference.
+func ruleSharedToJS(w *World, r *Report) {
+	r.Rule("SHARED-TO-JS", "core.RunJavascript receives the location control's CodeProps (premise, checked: callers pass Control.CodeProps, and sys hands one Control to every location of a group) and puts them into the script's environment.  The interpreter hands Go maps and slices to the script by reference, so every value that goes from the `props` parameter into the environment goes through core.Copy first.  Otherwise `Env.limits.max = 42` in one location's action changes what the scripts of every other location read", 1)
+	fn := w.Func("core", "RunJavascript")
+	cp := w.Func("core", "Copy")
+	key := "fn=" + fname(fn)
+	var props *ssa.Parameter
+	for _, p := range fn.Params {
+		if p.Name() == "props" {
+			props = p
+		}
+	}
+	if props == nil {
+		r.exempt("SHARED-TO-JS", key, w.Pos(fn.Pos()), "RunJavascript has no `props` parameter: shape not recognised, not decided")
+		return
+	}
+	fromProps := func(v ssa.Value) bool {
+		return dependsOn(v, func(x ssa.Value) bool {
+			rg, ok := x.(*ssa.Range)
+			return ok && resolveSpill(rg.X) == ssa.Value(props)
+		})
+	}
+	viaCopy := func(v ssa.Value) bool {
+		return dependsOn(v, func(x ssa.Value) bool {
+			c, ok := x.(*ssa.Call)
+			return ok && c.Common().StaticCallee() == cp
+		})
+	}
+	n := 0
+	bad := ""
+	allInstrs(fn, func(in ssa.Instruction) {
+		mu, ok := in.(*ssa.MapUpdate)
+		if !ok || !fromProps(mu.Value) {
+			return
+		}
+		n++
+		if !viaCopy(mu.Value) {
+			bad = w.PosOf(in)
+		}
+	})
+	switch {
+	case n == 0:
+		r.exempt("SHARED-TO-JS", key, w.Pos(fn.Pos()), "the props do not go into a map here: shape not recognised, not decided")
+	case bad != "":
+		r.violation("SHARED-TO-JS", key, bad, "a value of the shared CodeProps is put into the script's environment as it is: scripts of different locations write to and read from the same Go map")
+	default:
+		r.ok("SHARED-TO-JS", key, w.Pos(fn.Pos()), "every prop is copied for the script")
+	}
+}
+
+// CTX-SCRIPT (C09): a script works on the location that runs it.
+func ruleCtxScript(w *World, r *Report) {
+	r.Rule("CTX-SCRIPT", "core.RunJavascript builds the script's environment (Env.AddFact, Env.RemFact, Env.Search ...) on `the context's current location` (premise, checked: it reads Context.GetLoc / Location()).  The two places from which rulio runs a location's scripts — Location.ExecAction (actions) and CodeQuery.Exec (conditions) — therefore point the context at their own location (Context.SetLoc with the receiver / the loc parameter) on every path before the script can run: the call dominates every call that (transitively, inside core) reaches RunJavascript.  The context is re-pointed by every search of every ancestor, and a search that fails part-way leaves it at that ancestor: without the re-pointing, the next script of an event for C writes into C's parent", 2)
+	run := w.Func("core", "RunJavascript")
+	setLoc := w.Method("core", "Context", "SetLoc")
+	// premise
+	premise := false
+	allInstrs(run, func(in ssa.Instruction) {
+		if c := callOf(in); c != nil {
+			if f := c.StaticCallee(); f != nil && f.Signature.Recv() != nil && (f.Name() == "GetLoc" || f.Name() == "Location") {
+				if rn := namedOf(f.Signature.Recv().Type()); rn != nil && typeKey(rn) == "core.Context" {
+					premise = true
+				}
+			}
+		}
+	})
+	if !premise {
+		r.exempt("CTX-SCRIPT", "premise", w.Pos(run.Pos()), "premise fails: RunJavascript does not take its location from the context; not decided by this rule")
+		return
+	}
+	// functions of core from which RunJavascript is reachable (static calls and closures made in them)
+	reaches := map[*ssa.Function]bool{run: true}
+	for changed := true; changed; {
+		changed = false
+		for _, fn := range w.Funcs {
+			if w.RelPkg(fn) != "core" || reaches[fn] || isTestFile(w, fn) {
+				continue
+			}
+			hit := false
+			allInstrs(fn, func(in ssa.Instruction) {
+				if c := callOf(in); c != nil {
+					if f := c.StaticCallee(); f != nil && reaches[f] {
+						hit = true
+					}
+				}
+				if mc, ok := in.(*ssa.MakeClosure); ok {
+					if g, ok := mc.Fn.(*ssa.Function); ok && reaches[g] {
+						hit = true
+					}
+				}
+			})
+			if hit {
+				reaches[fn], changed = true, true
+			}
+		}
+	}
+	type site struct {
+		fn  *ssa.Function
+		loc ssa.Value
+	}
+	var sites []site
+	if f := w.TryMethod("core", "Location", "ExecAction"); f != nil {
+		sites = append(sites, site{f, f.Params[0]})
+	}
+	if f := w.TryMethod("core", "CodeQuery", "Exec"); f != nil {
+		for _, p := range f.Params {
+			if pt, ok := p.Type().(*types.Pointer); ok && isNamed(pt.Elem(), modPath+"/core", "Location") {
+				sites = append(sites, site{f, p})
+			}
+		}
+	}
+	for _, s := range sites {
+		key := "fn=" + fname(s.fn)
+		var sets, runs []ssa.Instruction
+		allInstrs(s.fn, func(in ssa.Instruction) {
+			c := callOf(in)
+			if c == nil {
+				return
+			}
+			if _, isDefer := in.(*ssa.Defer); isDefer {
+				return
+			}
+			if c.StaticCallee() == setLoc && len(c.Args) == 2 && valueIs(c.Args[1], s.loc) {
+				sets = append(sets, in)
+			}
+			if f := c.StaticCallee(); f != nil && reaches[f] {
+				runs = append(runs, in)
+			} else if f == nil && !c.IsInvoke() {
+				runs = append(runs, in) // a thunk built by a function that reaches RunJavascript
+			}
+		})
+		if len(runs) == 0 {
+			r.exempt("CTX-SCRIPT", key, w.Pos(s.fn.Pos()), "no call from here reaches RunJavascript: shape not recognised, not decided")
+			continue
+		}
+		bad := ""
+		for _, rn := range runs {
+			dom := false
+			for _, st := range sets {
+				if instrDominates(st, rn) || controlGuardsNil(s.fn, st, rn, s.loc) {
+					dom = true
+				}
+			}
+			if !dom {
+				bad = w.PosOf(rn)
+			}
+		}
+		if bad != "" {
+			r.violation("CTX-SCRIPT", key, bad, "a script can be run from here without the context having been pointed at this location: its Env functions then work on whatever location the context was pointed at last")
+		} else {
+			r.ok("CTX-SCRIPT", key, w.PosOf(sets[0]), "the context is pointed at the location before any script runs")
+		}
+	}
+}
+
+// controlGuardsNil: set is executed on every path to run except those on which loc is nil (`if loc != nil { SetLoc }`).
+func controlGuardsNil(fn *ssa.Function, set, run ssa.Instruction, loc ssa.Value) bool {
+	// delete the `loc == nil` edges; then every path from entry to run must pass set
+	del := map[bedge]bool{}
+	for _, b := range fn.Blocks {
+		if len(b.Instrs) == 0 {
+			continue
+		}
+		ifi, ok := b.Instrs[len(b.Instrs)-1].(*ssa.If)
+		if !ok {
+			continue
+		}
+		ct, ok := decodeIf(ifi)
+		if !ok || !valueIs(resolveSpill(ct.V), loc) {
+			continue
+		}
+		if ct.TrueWhen == "nonnil" {
+			del[bedge{b, 1}] = true
+		} else if ct.TrueWhen == "nil" {
+			del[bedge{b, 0}] = true
+		}
+	}
+	if len(del) == 0 {
+		return false
+	}
+	h, _ := reach(fn, nil, func(x ssa.Instruction) bool { return x == run }, func(x ssa.Instruction) bool { return x == set }, edgeFilterOf(del))
+	return h == nil
+}
+
+// CROLT-ESCAPE (C09, C15, C16): a location name or rule id in a query string is data.
+func ruleCroltEscape(prop string) ruleFn {
+	return func(w *World, r *Report) {
+		r.Rule("CROLT-ESCAPE", "in the methods of cron.CroltSimple, every non-constant string that is concatenated into the URL of a request after a query marker (a constant operand containing `?` or `&` with `=`) goes through net/url's QueryEscape (or url.Values.Encode): the location name and the rule id are chosen by clients.  Unescaped, the location `B&id=r` removing any rule asks the persistent cron to delete job `r` of location `B` (the service reads the first `account` and the first `id`), and an id containing `+`, `&` or `#` is not removed while Rem reports success", 1)
+		nt := w.TryNamed("cron", "CroltSimple")
+		if nt == nil {
+			r.exempt("CROLT-ESCAPE", "type=cron.CroltSimple", "", "type not found: not decided")
+			return
+		}
+		isEscape := func(v ssa.Value) bool {
+			c, ok := v.(*ssa.Call)
+			if !ok {
+				return false
+			}
+			o := calleeObj(c.Common())
+			return o != nil && o.Pkg() != nil && o.Pkg().Path() == "net/url" && (o.Name() == "QueryEscape" || o.Name() == "Encode" || o.Name() == "PathEscape")
+		}
+		n := 0
+		for _, fn := range w.MethodsOf(nt) {
+			allInstrs(fn, func(in ssa.Instruction) {
+				bo, ok := in.(*ssa.BinOp)
+				if !ok || bo.Op != token.ADD {
+					return
+				}
+				if b, isB := bo.Type().Underlying().(*types.Basic); !isB || b.Kind() != types.String {
+					return
+				}
+				// X + Y where X ends a query marker: X is (or ends in) a constant with ?name= / &name=
+				marker := func(v ssa.Value) bool {
+					if s, ok := constString(v); ok {
+						return (strings.Contains(s, "?") || strings.Contains(s, "&")) && strings.HasSuffix(s, "=")
+					}
+					if b2, ok := v.(*ssa.BinOp); ok && b2.Op == token.ADD {
+						if s, ok := constString(b2.Y); ok {
+							return (strings.Contains(s, "?") || strings.Contains(s, "&")) && strings.HasSuffix(s, "=")
+						}
+					}
+					return false
+				}
+				if !marker(bo.X) {
+					return
+				}
+				if _, isC := bo.Y.(*ssa.Const); isC {
+					return
+				}
+				n++
+				key := "fn=" + fname(fn) + " query-value#" + itoa(n)
+				if dependsOn(bo.Y, isEscape) {
+					r.ok("CROLT-ESCAPE", key, w.PosOf(in), "escaped")
+				} else {
+					r.violation("CROLT-ESCAPE", "fn="+fname(fn), w.PosOf(in), "a client-chosen string goes into the query string of the request unescaped")
+				}
+			})
+		}
+		if n == 0 {
+			r.exempt("CROLT-ESCAPE", "type=cron.CroltSimple", "", "no query string is concatenated in CroltSimple's methods: shape not recognised, not decided")
+		}
+	}
+}
